@@ -119,7 +119,7 @@ SPECS = {
             },
         }],
         'rule': ('one run = one seeded history of 10-36 wallet operations weighted towards transaction requests (send / send_to / '
-                 'sweep single and multi target / bumpfee / later send) on funded wallets of every kind, requests in int / Value / string amount forms, with Address objects, max_utxos, input_key_id, locktime, fixed output order and explicit input lists (valid, too small, far too large, with a repeated entry, with an output the wallet already spent), with fees explicit / automatic / named coming from simulated providers through the cache and clock; every returned transaction is '
+                 'sweep single and multi target / bumpfee / later send) on funded wallets of every kind, requests in int / Value / string amount forms, with Address objects, max_utxos, input_key_id, locktime, fixed output order and explicit input lists (entries as tuples, (txid, n) pairs or Input objects; valid, too small, far too large, with a repeated entry, with an output the wallet already spent), with fees explicit / automatic / named coming from simulated providers through the cache and clock; every returned transaction is '
                  'checked as object and as serialization (reference parser, chain prevout values). Non-trivial: >= 5 operations '
                  'and >= 1 successful library call; distinct = distinct event-log digests.'),
         'state_measure': 'distinct (wallet kind, witness type, request api, #inputs bucket, #outputs bucket, fee argument, stage)',
@@ -146,7 +146,7 @@ SPECS = {
             },
         }],
         'rule': ('one run = one seeded history of 10-36 key operations (new_key / new_key_change / get_key / get_key_change, bulk '
-                 'get_keys / new_keys, explicit key_for_path / address_index / keys_for_path with number_of_keys, new_account, switching the default account, import of an unrelated key, keys of another witness type in the same '
+                 'get_keys / new_keys, explicit key_for_path (relative, or the full path as a string naming another account than the default) / address_index / keys_for_path with number_of_keys, new_account, an account and keys on a second network, switching the default account, import of an unrelated key, keys of another witness type in the same '
                  'wallet, scan with funded gaps, mark-used, reopen / second handle / drop / gc, rebuild in a new database from the '
                  'same master material with permuted cosigner keys, watch-only wallet from the exported account xpub) on HD, '
                  'single-key, multisig and watch-only wallets (HD wallets from extended keys and from BIP39 sentences with / without passphrase) over 5 networks x 3 witness types, with commit-failure and crash faults; '
@@ -205,7 +205,7 @@ SPECS = {
         'rule': ('one run = one signing / tampering history over transactions created by real wallets (single-signer P2PKH / '
                  'P2WPKH / P2SH-P2WPKH and m-of-n P2SH / P2WSH / P2SH-P2WSH): sign with subsets of the right keys over several '
                  'calls, re-sign, sign with a foreign key, export / import as object, dict and raw, serialize -> parse -> re-attach '
-                 'values, 15 kinds of single-field tampering of the object and 6 of the wire form, rounds in which the missing cosigners sign one per call in a drawn order, and single-signer transactions rebuilt from public keys and signed with one address key per call; after every event verify() is compared with the reference '
+                 'values, a search for single-signer spends with a signature of 70 bytes or less (built and signed through the plain Transaction API, then round-tripped), 15 kinds of single-field tampering of the object and 9 of the wire form (also to 0; edits of committed fields are judged on the bytes that arrived), rounds in which the missing cosigners sign one per call in a drawn order, and single-signer transactions rebuilt from public keys and signed with one address key per call; after every event verify() is compared with the reference '
                  'node\'s per-input count of valid signatures by distinct keys of the previous output\'s key set. Non-trivial: '
                  '>= 5 events and >= 1 successful library call; distinct = distinct event-log digests.'),
         'state_measure': 'distinct (witness type, m, n, #signers bucket, tampered, library verdict, node verdict, last hand-off form)',
@@ -278,7 +278,7 @@ SPECS = {
         'rule': ('objects arm: one run = 1-3 subjects (Key, HDKey master / child of every witness type, private HD Wallet opened on the master key or on the account-level private key) and 5-14 '
                  'rounds of [0-4 priming calls drawn in any order: wif / wif_key / wif_private / as_dict(include_private) / info / '
                  'deepcopy / pickle / subkey / public_master(as_private) / ...] followed by the public views (public(), '
-                 'public_master(), wif_public(), Wallet.wif(is_private=False), WalletKey.public(), default as_dict / as_json / repr / '
+                 'public_master(), wif_public() also under explicit version bytes / witness type, Wallet.wif(is_private=False), WalletKey.public(), default as_dict / as_json / repr / '
                  'str / info, watch-only wallet from the export; the address object of the private key and a transaction signed with it: default dictionary, JSON, repr, printed form; the wallet\'s listings); storage arm (field encryption on): one run = a wallet history '
                  '(keys, fund, update, send, reopen, crash) with scans of the database file, its journal and the library\'s log file (shipped logging defaults) at commit points, after '
                  'crashes and reopening, and of the default text forms of the transactions it creates; arm storage_pw is the storage arm with the key given as DB_FIELD_ENCRYPTION_PASSWORD. Non-trivial: >= 4 operations and >= 2 successful; distinct = distinct event-log digests.'),
